@@ -55,6 +55,13 @@ impl Float {
         }
 
         if x < &one {
+            // Just below one the series converges quickly, while going through
+            // the reciprocal would lose accuracy: log(1/x) is tiny, and the
+            // rounding error of 1/x is not.
+            let low = Self::from_f64(0.999).cast(sem);
+            if x > &low {
+                return Self::log_taylor(x);
+            }
             let re = Float::div_with_rm(&one, x, RoundingMode::None);
             return Self::log_range_reduce(&re).neg();
         }
